@@ -78,18 +78,23 @@ def wrapSni (o : Merged) (hostname : Str) : Except HExn Policy :=
     | .error e => .error e
     | .ok c => .ok (.fresh c.verify c.chk c.ca hostname)
 
+/-- `if sslopt.get("server_hostname", None): hostname = sslopt["server_hostname"]` -/
+def effectiveName (u : SslOpt) (hostname : Str) : Str :=
+  match truthy u.serverHostname with
+  | some h => h
+  | none => hostname
+
 /-- `_ssl_socket(sock, user_sslopt, hostname)` up to the `wrap_socket` call. -/
 def sslSocket (u : SslOpt) (env : TlsEnv) (hostname : Str) : Except HExn Policy :=
   -- sslopt = {"cert_reqs": CERT_REQUIRED}; sslopt.update(user_sslopt)
   let certReqs := some (u.certReqs.getD (certOf Gen.sslDefaultCertReqs))
   let certPath := truthy env.bundle
-  let (caCerts, caCertPath) :=
-    if certPath.isSome ∧ env.isFile ∧ u.caCerts = none then (certPath, u.caCertPath)
-    else if certPath.isSome ∧ env.isDir ∧ u.caCertPath = none then (u.caCerts, certPath)
-    else (u.caCerts, u.caCertPath)
-  let hostname := match truthy u.serverHostname with
-    | some h => h
-    | none => hostname
+  -- if cert_path and isfile(cert_path) and user_sslopt.get("ca_certs") is None: … elif … isdir …
+  let useFile : Bool := certPath.isSome && env.isFile && u.caCerts.isNone
+  let useDir : Bool := !useFile && certPath.isSome && env.isDir && u.caCertPath.isNone
+  let caCerts := if useFile then certPath else u.caCerts
+  let caCertPath := if useDir then certPath else u.caCertPath
+  let hostname := effectiveName u hostname
   wrapSni ⟨certReqs, u.checkHostname, caCerts, caCertPath, u.context⟩ hostname
 
 end WS.Model.Tls
